@@ -40,9 +40,12 @@ First(l) == TextV(<<l.s[1]>>)
 \*   join    SELECT x, y FROM t INNER JOIN j::'<fj>' ON t.x = j.x     (joined file: a1=p a1=q b1=r -- the line a1 has two partners)
 Cy == <<121>>
 P1(c) == TextV(<<c>>)
-Stmt(c) ==
+\*   redefj  CREATE TABLE j(...) again with another meaning of y (y = the key): a later join shows the rows of the NEW definition -- no table loaded for
+\*           an earlier statement may be used again
+Stmt(c, jv) ==
   CASE c = "all"    -> [cols |-> <<Cx>>, rows |-> [i \in 1..3 |-> <<Lines[i]>>], table |-> FALSE]
-    [] c = "join"   -> [cols |-> <<Cx, Cy>>, rows |-> <<<<Lines[1], P1(112)>>, <<Lines[1], P1(113)>>, <<Lines[3], P1(114)>>>>, table |-> FALSE]
+    [] c = "join"   -> [cols |-> <<Cx, Cy>>, rows |-> IF jv = 1 THEN <<<<Lines[1], P1(112)>>, <<Lines[1], P1(113)>>, <<Lines[3], P1(114)>>>>
+                                                        ELSE <<<<Lines[1], Lines[1]>>, <<Lines[1], Lines[1]>>, <<Lines[3], Lines[3]>>>>, table |-> FALSE]
     [] c = "count"  -> [cols |-> <<Cn>>, rows |-> <<<<IntV(3)>>>>, table |-> TRUE]
     [] c = "group"  -> [cols |-> <<Cx, Cn>>, rows |-> [i \in 1..3 |-> <<Lines[i], IntV(1)>>], table |-> TRUE]
     [] c = "limit1" -> [cols |-> <<Cx>>, rows |-> <<<<Lines[1]>>>>, table |-> FALSE]
@@ -56,10 +59,11 @@ IsStmt(c) == c \in {"all", "join", "count", "group", "limit1", "selw", "dist", "
 VARIABLES session, format,      \* the environment's choices
           i,                    \* lines of the session already read
           hasW,                 \* CREATE TABLE w has been executed
+          jv,                   \* which definition of table j is in force (1: the definition file's, 2: after `redefj`)
           ended,                \* `exit` has been read
           out                   \* stdout so far
 
-svars == <<session, format, i, hasW, ended, out>>
+svars == <<session, format, i, hasW, jv, ended, out>>
 
 Rec(cols, r) == [k |-> "rec", cols |-> cols, row |-> r, m |-> ""]
 Hdr(cols) == [k |-> "hdr", cols |-> cols, row |-> <<>>, m |-> ""]
@@ -72,7 +76,7 @@ SeqsUpTo(S, n) == IF n = 0 THEN {<<>>} ELSE LET P == SeqsUpTo(S, n - 1) IN P \cu
 Init ==
   /\ session \in SeqsUpTo(Commands, MaxCmds)
   /\ format \in Formats
-  /\ i = 0 /\ hasW = FALSE /\ ended = FALSE /\ out = <<>>
+  /\ i = 0 /\ hasW = FALSE /\ jv = 1 /\ ended = FALSE /\ out = <<>>
 
 \* the records of one statement.  A SELECT prints per input line (one print() call per line; a fresh printer per statement writes the CSV
 \* header once); the rows one line fans out to are one result of several rows: in the loop (results are not "single") an empty line follows.
@@ -86,13 +90,14 @@ Step ==
   /\ ~ended /\ i < Len(session)
   /\ i' = i + 1
   /\ LET c == session[i + 1]
-     IN CASE c = "exit"    -> ended' = TRUE /\ UNCHANGED <<hasW, out>>
-          [] c = "createw" -> hasW' = TRUE /\ UNCHANGED <<ended, out>>
-          [] c = "bad"     -> out' = Append(out, Msg("parseerr")) /\ UNCHANGED <<hasW, ended>>
-          [] c = "dt"      -> out' = out \o <<Msg("dt1"), Msg("dt2"), Msg("dt3")>> /\ UNCHANGED <<hasW, ended>>       \* \d t: the column listing of t
-          [] c = "dw"      -> out' = (IF hasW THEN out \o <<Msg("dt1"), Msg("dt2"), Msg("dw3")>> ELSE Append(out, Msg("nodef"))) /\ UNCHANGED <<hasW, ended>>
-          [] OTHER         -> /\ out' = IF NeedsW(c) /\ ~hasW THEN Append(out, Msg("execerr")) ELSE out \o Printed(Stmt(c), c)
-                              /\ UNCHANGED <<hasW, ended>>
+     IN CASE c = "exit"    -> ended' = TRUE /\ UNCHANGED <<hasW, jv, out>>
+          [] c = "createw" -> hasW' = TRUE /\ UNCHANGED <<ended, jv, out>>
+          [] c = "redefj"  -> jv' = 2 /\ UNCHANGED <<hasW, ended, out>>
+          [] c = "bad"     -> out' = Append(out, Msg("parseerr")) /\ UNCHANGED <<hasW, jv, ended>>
+          [] c = "dt"      -> out' = out \o <<Msg("dt1"), Msg("dt2"), Msg("dt3")>> /\ UNCHANGED <<hasW, jv, ended>>       \* \d t: the column listing of t
+          [] c = "dw"      -> out' = (IF hasW THEN out \o <<Msg("dt1"), Msg("dt2"), Msg("dw3")>> ELSE Append(out, Msg("nodef"))) /\ UNCHANGED <<hasW, jv, ended>>
+          [] OTHER         -> /\ out' = IF NeedsW(c) /\ ~hasW THEN Append(out, Msg("execerr")) ELSE out \o Printed(Stmt(c, jv), c)
+                              /\ UNCHANGED <<hasW, jv, ended>>
   /\ UNCHANGED <<session, format>>
 
 Next == Step
@@ -102,15 +107,16 @@ Spec == Init /\ [][Next]_svars
 Done == ended \/ i = Len(session)
 \* C18 at the level of the session: what a statement prints does not depend on the lines before it (apart from the tables they created)
 \* -- stated on the model as: the output is the concatenation of per-line outputs, each a function of the line and of hasW alone
-OutOf(c, w) == IF c \in {"exit", "createw"} THEN <<>> ELSE IF c = "bad" THEN <<Msg("parseerr")>> ELSE IF c = "dt" THEN <<Msg("dt1"), Msg("dt2"), Msg("dt3")>>
+OutOf(c, w, j) == IF c \in {"exit", "createw", "redefj"} THEN <<>> ELSE IF c = "bad" THEN <<Msg("parseerr")>> ELSE IF c = "dt" THEN <<Msg("dt1"), Msg("dt2"), Msg("dt3")>>
                ELSE IF c = "dw" THEN (IF w THEN <<Msg("dt1"), Msg("dt2"), Msg("dw3")>> ELSE <<Msg("nodef")>>)
-               ELSE IF NeedsW(c) /\ ~w THEN <<Msg("execerr")>> ELSE Printed(Stmt(c), c)
+               ELSE IF NeedsW(c) /\ ~w THEN <<Msg("execerr")>> ELSE Printed(Stmt(c, j), c)
 RECURSIVE Expected(_, _)
 Expected(n, w) == IF n = 0 THEN <<>>
                   ELSE LET wBefore == \E j \in 1..(n - 1) : session[j] = "createw"
-                       IN Expected(n - 1, w) \o OutOf(session[n], wBefore)
+                           jBefore == IF \E j \in 1..(n - 1) : session[j] = "redefj" THEN 2 ELSE 1
+                       IN Expected(n - 1, w) \o OutOf(session[n], wBefore, jBefore)
 HistoryFree == out = Expected(i, hasW)
 \* nothing after `exit`
 ExitEnds == ended => \A j \in 1..(i - 1) : session[j] # "exit"
-TypeOK == i \in 0..Len(session) /\ hasW \in BOOLEAN /\ ended \in BOOLEAN
+TypeOK == i \in 0..Len(session) /\ hasW \in BOOLEAN /\ jv \in {1, 2} /\ ended \in BOOLEAN
 =============================================================================
